@@ -129,6 +129,22 @@ func c15Tuples(c *Check) []c15Tuple {
 			}
 		}
 	}
+	// matches that are preceded by a partial match of the same separator (a scan that does not back up after a
+	// failed partial match misses them), matches at the very end, several candidates; in both tiers
+	partial := [][2]string{{"aaab", "aab"}, {"bbba", "bba"}, {"ababac", "abac"}, {"a   b", "  b"}, {"aabaab", "aab"}, {"abababb", "ababb"}, {"aaaa", "aa"}, {"aaaab", "aab"}, {"abaabaaab", "aaab"}, {"xaxaxb", "axb"},
+		{"aab", "ab"}, {"aaab aab", "aab"}, {"ab ab  ab", " ab"}, {"abcabcabd", "abcabd"}, {"a a  a", " a"}, {"bbbb", "bbb"}, {"abab", "bab"}, {"baab", "ab"}, {"b a ", " "}, {"abb", "b"}}
+	for _, f := range two {
+		for _, pm := range partial {
+			ts = append(ts, c15Tuple{fn: f, strs: []string{pm[0], pm[1]}})
+			ts = append(ts, c15Tuple{fn: f, strs: []string{pm[0] + pm[0], pm[1]}})
+		}
+	}
+	for _, pm := range partial {
+		for _, n := range []int{-1, 0, 1, 2} {
+			ts = append(ts, c15Tuple{fn: "Replace", strs: []string{pm[0] + pm[0], pm[1], "X"}, n: n})
+		}
+		ts = append(ts, c15Tuple{fn: "ReplaceAll", strs: []string{pm[0] + pm[0], pm[1], ""}})
+	}
 	for _, s := range S {
 		for n := 0; n <= 4; n++ {
 			if !c.Thorough() && !(corner[s] || r.Intn(6) == 0) {
@@ -192,7 +208,7 @@ func c15Tuples(c *Check) []c15Tuple {
 }
 
 func checkC15(c *Check) {
-	c.Rule = "differential against Go's strings package: argument tuples over all strings of length 0-3 on {a, b, blank} plus 12 longer strings with overlaps, counts -2..4, slices of up to 4 elements with 4 separators, whitespace mixes; each tuple is compiled into a call of the bundled library and executed under bash (40 tuples per script, each result line tagged with its tuple index; an aborting script is re-run tuple by tuple); every tuple runs twice, once in a script of one function and once in a seeded shuffle that mixes functions in one script; a mixed-script mismatch is reported as it stands (the script is the replay); the quick tier always contains the empty-operand corners. Non-trivial = every tuple; distinct = function + arguments"
+	c.Rule = "differential against Go's strings package: argument tuples over all strings of length 0-3 on {a, b, blank} plus 12 longer strings with overlaps and 20 pairs in which a partial match of the separator precedes the real one, counts -2..4, slices of up to 4 elements with 4 separators, whitespace mixes; each tuple is compiled into a call of the bundled library and executed under bash (40 tuples per script, each result line tagged with its tuple index; an aborting script is re-run tuple by tuple); every tuple runs twice, once in a script of one function and once in a seeded shuffle that mixes functions in one script; a mixed-script mismatch is reported as it stands (the script is the replay); the quick tier always contains the empty-operand corners. Non-trivial = every tuple; distinct = function + arguments"
 	c.Assumptions = []string{"Go's strings package is the oracle", "ASCII arguments", "Repeat with a negative count is excluded (Go panics)"}
 	runProbes(c, bashProbeJudge)
 	tuples := c15Tuples(c)
